@@ -7,8 +7,11 @@ from wire import RAISES, WRONG
 
 ID = "C12"
 LEVEL = "proof"
+LEVEL_TEXT = "Lean 4 theorems over a model of fill that follows the code's order of effects: on every good single-path tree a raising fill returns the tree unchanged (any depth of the failing quantity, both failure modes), hence skipping failed records over any stream yields exactly the aggregate of the surviving records. Tied to /repo by streams with faults injected at random positions and depths (quantity raises / returns a wrong type), comparing state before/after each failing fill and the final state with the reference evaluation of the survivors, on implementation and model."
+LEVEL_NOTE = 'good (distinct child keys, well-formed state) is an executable hypothesis checked on the run; fan-out collections are outside the property and outside the theorem.'
+TECHNIQUE = 'Lean 4 proof (rollback by induction on the tree; skip-on-fault by induction on the stream) + fault-injection correspondence + oracle'
 LEAN_MODULE = "Hg.Props.C12"
-THEOREMS = []
+THEOREMS = ["Hg.C12.fill_fault_rollback", "Hg.C12.skip_on_fault"]
 CASES = {"quick": 300, "thorough": 10000}
 RULE = ("random single-path tree (Bin, SparselyBin, CentrallyBin, IrregularlyBin, Categorize, Select nested arbitrarily over any "
         "leaf), stream of <=14 records in which a random subset of positions carries a faulting cell (quantity raises / returns a "
@@ -44,7 +47,7 @@ def gen_params(rng, tier):
 
 def build(p):
     stream = [(r[0], r[1]) for r in p["stream"]]
-    ops = [("new", "a", p["spec"])]
+    ops = [("new", "a", p["spec"]), ("mcheck", ["singlepath", "a"], True), ("mcheck", ["good", "a"], True)]
     expect = []
     for d, w in stream:
         ops.append(("snap", "pre", "a"))
@@ -60,7 +63,7 @@ def _survivors(py, replies, h):
     stream = [(r[0], r[1]) for r in p["stream"]]
     fills = [r for r in replies if isinstance(r, str) and (r == "ok" or r.startswith("raise")) ]
     # replies of the fill ops, in order (snap/check ops reply "ok" too: take every third starting at index 2)
-    outcome = [replies[1 + 3 * i + 1] for i in range(len(stream))]
+    outcome = [replies[3 + 3 * i + 1] for i in range(len(stream))]
     surv = [dw for dw, o in zip(stream, outcome) if o == "ok"]
     want = execs.canon_doc(refeval.reference_doc(p["spec"], surv))
     d = execs.diff_doc(py.state(h), want)
